@@ -73,8 +73,16 @@ func c05Oracle(b *board.Board, g *ref.Game) (string, string) {
 	case !g.AnyEvent() && drawn:
 		return "false-draw", fmt.Sprintf("reported drawn (%v) in a game where no draw condition has occurred (count %d, clock %d)", b.Result().Reason, cnt, clock)
 	}
-	if g.DrawNow() && drawn && cnt >= 5 && clock < 100 && !(lastWasMaterial(g) && ref.Insufficient(g.Cur())) && b.Result().Reason != board.Repetition5 {
-		return "fivefold-name", fmt.Sprintf("fifth occurrence reported as %q", b.Result().Reason)
+	// what a user reads: the names are judged by their text, not by comparison with the package's own
+	// constants (two constants spelled alike would compare equal to themselves)
+	text := strings.ToLower(b.Result().String())
+	if drawn && !strings.HasPrefix(text, "1/2-1/2") {
+		return "draw-text", fmt.Sprintf("a drawn game reads %q", b.Result().String())
+	}
+	if g.DrawNow() && drawn && cnt >= 5 && clock < 100 && !(lastWasMaterial(g) && ref.Insufficient(g.Cur())) {
+		if r := strings.ToLower(string(b.Result().Reason)); b.Result().Reason != board.Repetition5 || !(strings.Contains(r, "5") || strings.Contains(r, "five")) || strings.Contains(r, "3") || strings.Contains(r, "three") {
+			return "fivefold-name", fmt.Sprintf("fifth occurrence reported as %q", b.Result().Reason)
+		}
 	}
 	if len(g.Cur().Legal()) == 0 {
 		f := b.Fork()
@@ -82,6 +90,19 @@ func c05Oracle(b *board.Board, g *ref.Game) (string, string) {
 		inCheck := g.Cur().InCheck(g.Cur().White)
 		if inCheck != (r.Reason == board.Checkmate) || (!inCheck && r.Reason != board.Stalemate) {
 			return "adjudication", fmt.Sprintf("no legal move, in check=%v, adjudicated %v", inCheck, r)
+		}
+		if rt := strings.ToLower(string(r.Reason)); inCheck != (strings.Contains(rt, "checkmate") && !strings.Contains(rt, "stalemate")) || (!inCheck && !strings.Contains(rt, "stalemate")) {
+			return "adjudication", fmt.Sprintf("no legal move, in check=%v, adjudication reads %q", inCheck, r.String())
+		}
+		wantText := "1/2-1/2"
+		if inCheck {
+			wantText = "0-1"
+			if !g.Cur().White {
+				wantText = "1-0"
+			}
+		}
+		if !strings.HasPrefix(r.String(), wantText+" ") {
+			return "adjudication", fmt.Sprintf("no legal move, in check=%v, white to move=%v: adjudication reads %q", inCheck, g.Cur().White, r.String())
 		}
 		if inCheck {
 			want := board.BlackWins
